@@ -197,7 +197,7 @@ def _int_list(ex, st, v):
 
 _old_cer = R.contracts.pop("Node.receive_cer")
 R.contract("Node.receive_cer", params={"self": "Node", "conn": "PeerConnection", "message": "CapabilitiesExchangeRequest"},
-           ghost={"o": "Opt[bytes]"},
+           ghost={"o": "Opt[bytes]", "r": "str", "w": "Any:routekey", "p": "Peer"},
            ghost_out={"rivals": ("other_connections", "List[PeerConnection]")},
            requires=_old_cer.requires, assume_pre=_CE_LISTS,
            entry_facts=["len(some(message.auth_application_id)) >= 0", "len(some(message.acct_application_id)) >= 0",
@@ -230,12 +230,15 @@ R.contract("Node.receive_cer", params={"self": "Node", "conn": "PeerConnection",
                 "setv(conn.auth_application_ids) == set_inter(node_apps(self, 1), old(cer_auth(message))) and "
                 "setv(conn.acct_application_ids) == set_inter(node_apps(self, 2), old(cer_acct(message))))" % READY),
                ("ready-only-with-2001", "implies(conn.state == %d and old(conn.state) != %d, cea(conn).result_code == 2001)"
-                % (READY, READY))],
+                % (READY, READY)),
+               ("an-application-of-the-peer-that-became-ready-reports-ready",
+                "implies(cea(conn).result_code == 2001 and route_peer(self, r, w, p) and "
+                "not is_none(p.connection) and some(p.connection) == conn, as_app(w).is_ready.flag)")],
            raises=_old_cer.raises, ensures_exc={k: list(v) for k, v in _old_cer.ensures_exc.items()},
            ghost_modifies=_old_cer.ghost_modifies + ["*PeerConnection.g_attn"],
            modifies=_old_cer.modifies + ["*StoppableThread.stopped", "*list:Peer",
                                          "dict:self._peer_waiting_answer[cer_host(message)] "
-                                         "if cer_host(message) in self._peer_waiting_answer"], props=["C06"])
+                                         "if cer_host(message) in self._peer_waiting_answer"], props=["C06", "C13"])
 R.loop("Node.receive_cer", 0, invariants=[("conn-closed-or-untouched", "conn.state == old(conn.state) or conn.state == %d" % CLOSED)],
        modifies=["*PeerConnection.state", "*StoppableThread.stopped", "*PeerConnection.g_attn"])
 R.loop("Node.receive_cer", 1,
